@@ -10,15 +10,7 @@ CONSTANTS MaxEnt,      \* entries per package: 1..MaxEnt
           MCVariants,  \* protocol variants explored
           MCTargets,   \* target classes explored
           \* --- generation ---
-          DocOps,      \* content operations on a Document
-          MdOps,       \* content blocks of a Markdown source
-          Vias,        \* entry points that write a package to a path
-          GenTargets,  \* target classes
-          Plans,       \* fault plans: "none" (one call without a limit), "sweep" (one call per fault offset)
-          SweepPoints, \* offsets of a sweep: 0 = every offset 0..N+2, n = about n evenly spaced ones ...
-          SweepEdge,   \* ... plus the first and last SweepEdge offsets
-          MaxDoc,      \* content operations before a save
-          MaxSaves     \* saves per behaviour
+          GroupNames   \* which scenario groups (below) are enumerated
 
 VARIABLES cfg, st, hist
 vars == <<cfg, st, hist>>
@@ -79,26 +71,56 @@ Act_Final == [][st.pc = "done" => UNCHANGED vars]_vars
 Live_Returns == <>(st.pc = "done")
 
 \* ---- generation of scenarios -----------------------------------------------------
-\* a behaviour: content operations and saves; emitted whenever it ends with a save
+\* A scenario group fixes the content alphabet (operations on a Document / blocks of a Markdown
+\* source), the entry points, the target classes, the fault plan ("none": one call without a
+\* limit; "sweep": one call per fault offset - points = 0: every offset 0..N+2, points = n: about
+\* n evenly spaced ones plus the first and last `edge` offsets and the buffer boundaries), and
+\* the number of content operations / saves per behaviour.
+SmallDoc == {"table", "header", "footnote", "para", "image", "list"}
+LargeDoc == {"longtext", "midimage", "bigimage"}
+AllDoc   == {"para", "heading", "longtext", "table", "image", "midimage", "header", "footer", "footnote", "list", "margins"}
+AllMd    == {"mdpara", "mdheading", "mdlist", "mdtable", "mdlong"}
+Reg      == {"newdir", "existing"}
+G(g, doc, md, vias, targets, plan, points, edge, maxdoc, maxsaves) ==
+  [g |-> g, doc |-> doc, md |-> md, vias |-> vias, targets |-> targets, plan |-> plan,
+   points |-> points, edge |-> edge, maxdoc |-> maxdoc, maxsaves |-> maxsaves]
+AllGroups == {
+  \* quick tier
+  G("q-sweep-all",   {"table"}, {}, {"Save"}, Reg, "sweep", 0, 0, 1, 1),
+  G("q-sweep-large", LargeDoc, {}, {"Save"}, {"newdir"}, "sweep", 120, 64, 1, 1),
+  G("q-targets",     AllDoc, {}, {"Save"}, Targets, "none", 0, 0, 1, 1),
+  G("q-md-targets",  {}, AllMd, {"ConvertFile", "BatchConvert"}, Targets, "none", 0, 0, 1, 1),
+  G("q-md-sweep",    {}, {"mdtable", "mdlong"}, {"ConvertFile"}, {"newdir"}, "sweep", 150, 64, 1, 1),
+  G("q-resave",      {"para", "image"}, {}, {"Save"}, {"newdir", "existing", "device"}, "none", 0, 0, 2, 2),
+  G("q-random",      AllDoc, {}, {"Save"}, {"newdir", "existing", "device"}, "sweep", 60, 32, 8, 2),
+  \* thorough tier
+  G("t-sweep-all",   SmallDoc, {}, {"Save"}, Reg, "sweep", 0, 0, 1, 1),
+  G("t-sweep-large", LargeDoc, {}, {"Save"}, Reg, "sweep", 1500, 300, 2, 1),
+  G("t-targets",     AllDoc, {}, {"Save"}, Targets, "none", 0, 0, 2, 1),
+  G("t-md-targets",  {}, AllMd, {"ConvertFile", "BatchConvert"}, Targets, "none", 0, 0, 2, 1),
+  G("t-md-sweep",    {}, {"mdtable", "mdlong"}, {"ConvertFile", "BatchConvert"}, {"newdir"}, "sweep", 0, 0, 1, 1),
+  G("t-resave",      {"para", "image", "header"}, {}, {"Save"}, {"newdir", "existing", "device"}, "none", 0, 0, 2, 2),
+  G("t-random",      AllDoc, {}, {"Save"}, {"newdir", "existing", "device"}, "sweep", 400, 128, 8, 2)}
+Groups == {x \in AllGroups : x.g \in GroupNames}
+
+\* a behaviour: the group, then content operations and saves; emitted whenever it ends with a save
 IsSave(o) == o.op = "Save"
 NSaves(h) == Cardinality({i \in 1..Len(h) : IsSave(h[i])})
-NDoc(h) == Len(h) - NSaves(h)
+NDoc(h) == Len(h) - NSaves(h) - 1
+GroupOf(h) == CHOOSE x \in Groups : x.g = h[1].g
 
 InitGen == cfg = <<>> /\ st = <<>> /\ hist = <<>>
 NextGen ==
   /\ UNCHANGED <<cfg, st>>
-  /\ NSaves(hist) < MaxSaves
-  /\ \/ \E o \in DocOps \cup MdOps :
-          /\ NDoc(hist) < MaxDoc
-          /\ hist' = Append(hist, [op |-> o])
-     \/ \E v \in Vias, t \in GenTargets, p \in Plans :
-          \* a Markdown entry point converts a Markdown source: only Markdown blocks before it,
-          \* and every save of the behaviour goes through the same kind of entry point
-          /\ (v # "Save") => \A i \in 1..Len(hist) : IsSave(hist[i]) \/ hist[i].op \in MdOps
-          /\ (v = "Save") => \A i \in 1..Len(hist) : IsSave(hist[i]) \/ hist[i].op \in DocOps
-          /\ \A i \in 1..Len(hist) : IsSave(hist[i]) => ((hist[i].via = "Save") <=> (v = "Save"))
-          /\ hist' = Append(hist, [op |-> "Save", via |-> v, target |-> t,
-                                   plan |-> p, points |-> SweepPoints, edge |-> SweepEdge])
+  /\ IF hist = <<>> THEN \E x \in Groups : hist' = <<[op |-> "Group", g |-> x.g]>>
+     ELSE LET x == GroupOf(hist) IN
+          /\ NSaves(hist) < x.maxsaves
+          /\ \/ \E o \in x.doc \cup x.md :
+                  /\ NDoc(hist) < x.maxdoc
+                  /\ hist' = Append(hist, [op |-> o])
+             \/ \E v \in x.vias, t \in x.targets :
+                  hist' = Append(hist, [op |-> "Save", via |-> v, target |-> t,
+                                        plan |-> x.plan, points |-> x.points, edge |-> x.edge])
 SpecGen == InitGen /\ [][NextGen]_vars
 
 Emit == \/ Len(hist) = 0
